@@ -74,6 +74,9 @@ type RangeQ struct {
 	Offset  time.Duration
 	Unwrap  string
 	Conv    string // "" bytes duration duration_seconds
+	// UnwrapFilters are the label matchers written after the unwrap expression
+	// (`| unwrap v | g="x"`): a sample is taken only if all of them hold.
+	UnwrapFilters []selMatcher
 	Group   []string
 	Grouped bool
 	Without bool
@@ -123,6 +126,9 @@ func (q *RangeQ) Text() string {
 		} else {
 			sb.WriteString(" | unwrap " + q.Unwrap)
 		}
+		for _, f := range q.UnwrapFilters {
+			sb.WriteString(" | " + f.Label + opText(f.Op) + quoteLogQL(f.Value))
+		}
 	}
 	if !q.RangeFirst {
 		sb.WriteString(" " + rng)
@@ -154,6 +160,9 @@ func (q *RangeQ) Shape() string {
 	}
 	if q.Conv != "" {
 		s += "/" + q.Conv
+	}
+	if len(q.UnwrapFilters) > 0 {
+		s += "/unwrap-filter"
 	}
 	return s
 }
@@ -231,6 +240,15 @@ func (q *RangeQ) samples(env *MEnv) []MSample {
 				panic("verif: unwrap value not tabulated: " + lv)
 			}
 			v = f
+			pass := true
+			for _, uf := range q.UnwrapFilters {
+				if !oracleLabelMatch(uf.Op, uf.Value, e.L[uf.Label]) {
+					pass = false
+				}
+			}
+			if !pass {
+				continue
+			}
 		}
 		l := e.L
 		if q.needsUnwrap() && !env.UnwrapKeeps {
